@@ -29,7 +29,7 @@ REQUIRED = ["contract:CVR.make_phantoms", "accounting_checked:style", "accountin
 ASSUMPTIONS = ["card bounds >= number of CVRs listing the contest; input lists contain no phantoms",
                "a phantom labelled pooled inside a pooled batch is scored with that batch's mean by design (C03 depends "
                "on it): the 1/2 clause is asserted for unpooled phantom CVRs"]
-N_CASES = {"quick": 6400, "thorough": 160000}
+N_CASES = {"quick": 19200, "thorough": 160000}
 
 
 def pre_phantoms(a, k):
